@@ -3,8 +3,11 @@
     ndpoly                                -> its own exponents, coefficients and (unless given) names
     number / numpy array                  -> the constant polynomial array with that coefficient
 are proved from the real source to hand exactly those attributes, with names/dtype/allocation forwarded, to
-polynomial_from_attributes (proved).  Raw structured arrays (field-name decoding: codec C20), sympy objects and
-nested lists (compose_polynomial_array) are outside this proof: bounded run-time checks.
+polynomial_from_attributes (proved).
+    raw structured array (poly.values)    -> one term per FIELD: the field names are decoded back to exponent rows with the same
+                                             KEY_OFFSET that ndpoly.__new__ encoded them with (codec, C20), every field's
+                                             array is a coefficient, in field order (C03: the raw view regenerates the polynomial)
+Sympy objects and nested lists (compose_polynomial_array) are outside this proof: bounded run-time checks.
 """
 from __future__ import annotations
 import z3
@@ -17,6 +20,103 @@ from engine.polymodel import (Poly, Arr, ExpMat, MonoRow, NamesV, DTypeV, SymDic
 from engine.sortmodel import order_axioms
 from contracts.construct import keyok, eok_axioms
 from contracts.baseclass import own_poly, own_attributes
+from engine.codecmodel import StrVec, KeyStr, key_offset_of, prod_axioms
+from engine.sortmodel import IntVec
+from engine.logic import expo
+
+
+class FieldNames:
+    """`raw.dtype.names`: the tuple of field names of a structured array laid out like ndpoly storage - n strings of exactly D
+    characters, character d of name t being the code point  E(t, d) + KEY_OFFSET  (representation invariant established by
+    ndpoly.__new__: contracts/codec.py)"""
+
+    def __init__(self, raw):
+        self.raw = raw
+        self.vec = StrVec(raw.P.N, raw.P.D, raw.cp)
+
+    def sx_truth(self, ex):
+        return self.raw.P.N >= 1
+
+    def sx_len(self, ex):
+        return self.raw.P.N
+
+    def sx_seq(self, ex):
+        return V.Seq(self.raw.P.N, lambda t: KeyStr(self.vec, t))
+
+    def sx_iter(self, ex):
+        return None
+
+
+class RawDType:
+    def __init__(self, raw):
+        self.raw = raw
+
+    def sx_getattr(self, ex, attr, node):
+        if attr == "names":
+            return FieldNames(self.raw)
+        raise U(f"dtype.{attr} of a raw structured array", node)
+
+
+class RawStructured:
+    """a plain numpy structured array with the storage layout of the polynomial P (what `P.values` hands out)"""
+
+    def __init__(self, ex, P, K):
+        self.P, self.K = P, K
+        ctx = ex.ctx
+        cpf = ctx.func("cp", I, I, I)
+        t, d = z3.Int(ctx.fresh("t")), z3.Int(ctx.fresh("d"))
+        ctx.assume(z3.ForAll([t, d], z3.Implies(z3.And(0 <= t, t < P.N, 0 <= d, d < P.D), cpf(t, d) == expo(P.row(t), d) + K),
+                             patterns=[cpf(t, d)]))
+        self.cp = lambda t, d: cpf(t, d)
+
+    def sx_isinstance(self, ex, name):
+        return name == "numpy.ndarray"
+
+    def sx_getattr(self, ex, attr, node):
+        if attr == "dtype":
+            return RawDType(self)
+        raise U(f"raw structured array .{attr}", node)
+
+    def sx_getitem(self, ex, idx, node):
+        if isinstance(idx, KeyStr) and idx.vec.cp is self.cp:
+            ex.oblige(f"pre({ex.site('field')}).field_exists", z3.And(0 <= idx.t, idx.t < self.P.N), "index", node)
+            return self.P.column(ex, idx.t)
+        raise U("raw structured array indexed by something that is not one of its own field names", node)
+
+
+def install_axioms(reg):
+    ax = reg.axiom
+    prev_asarray = reg.fn["numpy.asarray"]
+    prev_max = reg.fn["numpy.max"]
+
+    @ax("numpy.asarray")
+    def asarray(ex, args, kw, node):
+        if len(args) == 1 and isinstance(args[0], FieldNames) and kw == {"dtype": "U"}:
+            # numpy picks the width of the longest name; every name has exactly D characters (none of them NUL)
+            return args[0].vec
+        return prev_asarray(ex, args, kw, node)
+
+    @ax("numpy.char.str_len")
+    def str_len(ex, args, kw, node):
+        a = args[0]
+        if isinstance(a, StrVec) and len(args) == 1 and not kw and isinstance(a.extra, int) and a.extra == 0:
+            ctx = ex.ctx
+            ex.oblige(f"pre({ex.site('str_len')}).no_trailing_NUL", ctx.forall_range(0, a.n, lambda t: a.cp(t, a.w - 1) != 0),
+                      "precondition", node, note="numpy strips trailing NULs: a key ending in NUL would read back shorter")
+            return IntVec(a.n, lambda t: a.w)
+        raise U("numpy.char.str_len of this value", node)
+
+    @ax("numpy.max")
+    def amax(ex, args, kw, node):
+        a = args[0]
+        if isinstance(a, IntVec) and len(args) == 1 and not kw:
+            ctx = ex.ctx
+            ex.oblige(f"pre({ex.site('max')}).nonempty", a.n >= 1, "precondition", node, note="numpy.max of an empty array raises")
+            m, t0 = ctx.int("max"), ctx.int("t_max")
+            ctx.assume(ctx.forall_range(0, a.n, lambda t: m >= a.at(t)))
+            ctx.assume(z3.And(0 <= t0, t0 < a.n, m == a.at(t0)))
+            return m
+        return prev_max(ex, args, kw, node)
 
 
 class Polynomial(Contract):
@@ -25,10 +125,12 @@ class Polynomial(Contract):
     func = "polynomial"
     properties = ("C03", "C12")
     positional = ("poly_like", "names", "dtype", "allocation")
-    assumptions = ("input kinds proved: dict, ndpoly, number/array; raw structured array, sympy, nested lists: bounded",)
+    assumptions = ("input kinds proved: dict, ndpoly, number/array, raw structured array; sympy, nested lists: bounded",
+                   "raw structured array: field names follow the ndpoly storage invariant (name t = E(t, .) + KEY_OFFSET as code "
+                   "points, proved for ndpoly.__new__ in contracts/codec.py); numpy string axioms of engine/codecmodel.py")
 
     def cases(self):
-        for kind in ("ndpoly", "ndpoly_named", "dict", "array", "number"):
+        for kind in ("ndpoly", "ndpoly_named", "dict", "array", "number", "structured"):
             def make_env(ex, kind=kind):
                 ctx = ex.ctx
                 P = own_poly(ex, "poly_like")
@@ -40,6 +142,11 @@ class Polynomial(Contract):
                 names = NamesV(ex.nm) if kind != "ndpoly" else None
                 if kind in ("ndpoly", "ndpoly_named"):
                     src = P
+                elif kind == "structured":
+                    for a in prod_axioms(ctx) + eok_axioms():
+                        ctx.assume(a)
+                    ctx.assume(ctx.forall_range(0, P.N, lambda t: keyok(P.row(t), P.D)))
+                    src = RawStructured(ex, P, key_offset_of(ex.mod.repo))
                 elif kind == "dict":
                     # {tuple(exponent): coefficient}: n entries with pairwise different keys of one width
                     n, D = ctx.int("n"), ctx.int("D")
@@ -59,7 +166,7 @@ class Polynomial(Contract):
                     ex.num = ctx.real("number")
                     src = ex.num
                 # precondition on the (rarely used) allocation argument: room for twice the terms handed in
-                n_in = P.N if kind in ("ndpoly", "ndpoly_named") else (ex.d["n"] if kind == "dict" else 1)
+                n_in = P.N if kind in ("ndpoly", "ndpoly_named", "structured") else (ex.d["n"] if kind == "dict" else 1)
                 ctx.assume(ex.alloc >= 2 * n_in)
                 ex.hooks = {}
                 return {"poly_like": src, "names": names, "dtype": DTypeV(ex.dt), "allocation": ex.alloc}
@@ -81,7 +188,11 @@ class Polynomial(Contract):
         if not ok:
             return
         fa = r.from_attrs
-        ex.oblige("post.dtype_forwarded", (fa["dtype"].term == ex.dt) if isinstance(fa["dtype"], DTypeV) else z3.BoolVal(False), "post")
+        if kind == "structured":
+            # (this branch takes the dtype of the fields; the `dtype` argument is not consulted by the source)
+            ex.oblige("post.dtype_left_to_the_fields", z3.BoolVal(fa["dtype"] is None), "post")
+        else:
+            ex.oblige("post.dtype_forwarded", (fa["dtype"].term == ex.dt) if isinstance(fa["dtype"], DTypeV) else z3.BoolVal(False), "post")
         ex.oblige("post.retain_flags_left_to_the_options", z3.BoolVal(fa["rc"] is None and fa["rn"] is None), "post")
         ex.oblige("post.allocation_forwarded", z3.BoolVal(fa.get("allocation") is ex.alloc), "post")
         nm = fa["names"]
@@ -92,6 +203,19 @@ class Polynomial(Contract):
         E, C = fa["E"], fa["C"]
         if kind in ("ndpoly", "ndpoly_named"):
             ex.oblige("post.own_exponents_and_coefficients", z3.BoolVal(own_attributes(E, C, P)), "post")
+        elif kind == "structured":
+            okE = isinstance(E, ExpMat)
+            ex.oblige("post.exponent_matrix", z3.BoolVal(okE), "post")
+            Cs = V.as_seq(ex, C)
+            if okE:
+                ex.oblige("post.one_term_per_field", z3.And(E.n == P.N, Cs.n == P.N, E.D == P.D), "post",
+                          note="no field skipped, none invented: every stored term comes back")
+                ex.oblige("post.field_names_decode_to_the_stored_exponents", ctx.forall_range(0, P.N, lambda t: ctx.forall_range(
+                    0, P.D, lambda d: expo(E.row(t), d) == expo(P.row(t), d))), "post",
+                    note="decode(name) = name - KEY_OFFSET per character: the inverse of the encoding in ndpoly.__new__")
+                ex.oblige("post.coefficient_t_is_field_t", ctx.forall_range(0, P.N, lambda t: z3.And(
+                    Cs.item(t).shape == P.shape, Cs.item(t).dtype == P.dtype,
+                    ctx.forall_idx(lambda i: Cs.item(t).elem(i) == P.C(t, i), P.shape))), "post")
         elif kind == "dict":
             d = ex.d
             Cs = V.as_seq(ex, C)
